@@ -164,6 +164,11 @@ SAMPLER_SETTINGS = {
     "pop_gibbs2": lambda kw: PopulationGibbsSampler("g", (2,), scale=torch.tensor([1.0, 2.0]), **kw),
     "pop_fast2": lambda kw: PopulationFastGibbsSampler("betas", (2, 2), scale=torch.ones(2, 2), **kw),
     "pop_mh": lambda kw: PopulationMetropolisHastingsSampler("betas", (2, 2), scale=torch.ones(2, 2), **kw),
+    # very small / very large variables: the scale is a positive finite number at every magnitude a float32 can hold,
+    # and it is changed by the configured factor there too
+    "ind_tiny": lambda kw: IndividualGibbsSampler("xi", (1,), n_patients=2, scale=1e-7, **kw),
+    "pop_tiny": lambda kw: PopulationGibbsSampler("g", (2,), scale=torch.tensor([1e-6, 3e-8]), **kw),
+    "pop_huge": lambda kw: PopulationGibbsSampler("g", (1,), scale=torch.tensor([1e30]), **kw),
 }
 
 
@@ -294,8 +299,11 @@ def run_shard(shard):
             for sig, msg in problems:
                 acc.violation(sig, msg, {"machine": "temperature", "config": cfg})
     elif shard["machine"] == "scale":
+        extreme = shard["setting"].endswith(("_tiny", "_huge"))
         for band in ((0.2, 0.4), (0.3, 0.6)):
-            for factor in (0.1, 0.5):
+            for factor in ((0.1, 0.5, 0.9) if not extreme else (0.5, 0.9)):
+                if factor == 0.9 and (band != (0.2, 0.4) or (shard["w"] > 2 and shard["tier"] == "quick")):
+                    continue
                 explore_scale(shard["setting"], shard["w"], band, factor, acc, max_steps=12)
     elif shard["machine"] == "personalize":
         run_personalize_binding(acc, shard["tier"])
